@@ -1505,3 +1505,11 @@ pub(crate) mod verif_crypto {
         sign_nonce, verify_authentication_nonce,
     };
 }
+
+#[cfg(feature = "verif-hooks")]
+impl WhoAreYouRef {
+    /// Verification hook: the nonce of the packet that triggered this query.
+    pub fn message_nonce(&self) -> MessageNonce {
+        self.1
+    }
+}
